@@ -34,6 +34,10 @@ TRUE_SET = {"1", "t", "T", "TRUE", "true", "True"}       # strconv.ParseBool's d
 FNS = ["Run", "RunV", "RunWith", "RunWithV", "Output", "OutputWith", "Exec"]
 WITH_ENV = {"RunWith", "RunWithV", "OutputWith", "Exec"}
 WR = ["nil", "buf", "os"]
+# every way a start can fail that the harness can construct (name -> command string)
+NOSTART = {"missing-bare-name": "c15-no-such-command-xyz", "missing-path": "/nonexistent/c15-helper", "no-x-bit": "@NOEXEC@",
+           "directory": "@BINDIR@", "exec-format-error": "@BADFMT@", "missing-interpreter": "@BADINTERP@",
+           "empty-command": "", "through-regular-file": "@BIN@/x", "missing-relative": "./c15-nothing-here"}
 MAX_REPORT = 5          # replay files written per run (the evidence counts all failing cases)
 
 
@@ -62,7 +66,7 @@ def gen_case(rng, exit_code=None, fn=None, good_cmd=False):
     # the command
     r = rng.random() * (0.8 if good_cmd else 1.12)
     pgood = 1.0 if good_cmd else 0.9
-    good, bad = "@BIN@", rng.choice(["/nonexistent/c15-helper", "@NOEXEC@", "@BINDIR@", ""])
+    good, bad = "@BIN@", rng.choice(["/nonexistent/c15-helper", "@NOEXEC@", "@BINDIR@", "", "@BADFMT@", "@BADINTERP@"])
     if r < 0.30:
         cmd = "@BIN@"
     elif r < 0.62:
@@ -90,7 +94,7 @@ def gen_case(rng, exit_code=None, fn=None, good_cmd=False):
         if "C15_NAME" in cmd:
             inherit.append(["C15_NAME", "helperchild"])
     else:
-        cmd = rng.choice(["/nonexistent/c15-helper", "c15-no-such-command-xyz", "@NOEXEC@", "@BINDIR@", "$C15_NOT_SET",
+        cmd = rng.choice(["/nonexistent/c15-helper", "c15-no-such-command-xyz", "@NOEXEC@", "@BINDIR@", "$C15_NOT_SET", "@BADFMT@", "@BADINTERP@",
                           "@BIN@.missing", "@BIN@/x", "./c15-nothing-here"])
     c["cmd"] = cmd
     c["args"] = [gen_arg(rng) for _ in range(rng.choice([0, 1, 1, 2, 3, 5]))]
@@ -114,7 +118,7 @@ def gen_raw(rng, quick):
         out.append({"raw": True, "kind": "child", "cmd": "@BIN@", "exit": k, "sig": 0})
     for s in (9,):     # only SIGKILL: other signals may be ignored or handled by the Go runtime of the child
         out.append({"raw": True, "kind": "child", "cmd": "@BIN@", "exit": 0, "sig": s})
-    for m in ("/nonexistent/c15-helper", "c15-no-such-command-xyz", "@NOEXEC@", "@BINDIR@", ""):
+    for m in sorted(NOSTART.values()):
         out.append({"raw": True, "kind": "child", "cmd": m, "exit": 0, "sig": 0})
     codes = [0, 1, 2, 3, 94, 255, 256, -1, 1000, -2**31] + [rng.randrange(-300, 70000) for _ in range(10 if quick else 300)]
     for k in codes:
@@ -137,11 +141,20 @@ class World:
         with open(self.noexec, "w") as f:
             f.write("#!/bin/sh\nexit 0\n")
         os.chmod(self.noexec, 0o644)
+        # pass exec.LookPath (regular file, x bit) but the kernel refuses to execve them
+        self.badfmt = os.path.join(ctx.tmp, "badfmt")          # neither ELF nor a #! script: ENOEXEC
+        with open(self.badfmt, "wb") as f:
+            f.write(b"\x00\x01this is not an executable format\n" * 8)
+        os.chmod(self.badfmt, 0o755)
+        self.badinterp = os.path.join(ctx.tmp, "badinterp")    # the #! interpreter does not exist: ENOENT from execve
+        with open(self.badinterp, "w") as f:
+            f.write("#!/nonexistent/c15-interpreter\nexit 0\n")
+        os.chmod(self.badinterp, 0o755)
         self.unitrun = go_build_harness(ctx, "unitrun")
         self.base_env = {"PATH": "/usr/bin:/bin"}
 
     def subst(self, s):
-        return s.replace("@BINDIR@", self.bindir).replace("@BIN@", self.bin).replace("@NOEXEC@", self.noexec)
+        return s.replace("@BINDIR@", self.bindir).replace("@BIN@", self.bin).replace("@NOEXEC@", self.noexec).replace("@BADFMT@", self.badfmt).replace("@BADINTERP@", self.badinterp)
 
 
 def make_request(w, c, workdir, idx):
@@ -434,6 +447,22 @@ def run(ctx):
             c = gen_case(rng, fn=fn, good_cmd=True)
             c["out"], c["sig"] = p, 0
             cases.append(c)
+    # every not-startable shape, through Exec (the only entry point that returns `ran`) and two other entry points;
+    # literally, and through a variable the env map sets
+    for si, (shape, cmdstr) in enumerate(sorted(NOSTART.items())):
+        for j, fn in enumerate(["Exec", "Exec", FNS[si % 6], FNS[(si + 3) % 6]]):
+            c = gen_case(rng, fn=fn, good_cmd=True)
+            c["sig"], c["via_map"] = 0, False
+            c["inherit"] = [kv for kv in c["inherit"] if kv[0] not in ("C15_BIN", "C15_DIR", "C15_NAME")]
+            if j == 1:
+                c["cmd"] = "${C15_BIN}"
+                c["env"] = [kv for kv in (c["env"] or []) if kv[0] != "C15_BIN"] + [["C15_BIN", cmdstr]]
+                c["inherit"].append(["C15_BIN", "@BIN@"])       # the map overrides a startable inherited value
+            else:
+                c["cmd"] = cmdstr
+                c["env"] = [kv for kv in (c["env"] or []) if kv[0] not in ("C15_BIN", "C15_DIR")] if c["env"] is not None else None
+            c["shape"] = shape
+            cases.append(c)
     nrand = 300 if ctx.quick else 9000
     for _ in range(nrand):
         cases.append(gen_case(rng))
@@ -448,6 +477,7 @@ def run(ctx):
     nontriv = 0
     byfn, outcome, verb = {}, {"exit0": 0, "exit_nonzero": 0, "signaled": 0, "not_started": 0}, {"on": 0, "off": 0}
     codes_seen = set()
+    shapes = {}
     n_args = n_args_decided = n_bad = 0
     for i, (c, (a, setenv, envm)) in enumerate(zip(cases, results)):
         if c.get("raw"):
@@ -466,6 +496,8 @@ def run(ctx):
         idx_call.append(i)
         d = a["dump"]
         byfn[c["fn"]] = byfn.get(c["fn"], 0) + 1
+        if c.get("shape"):
+            shapes[c["shape"]] = shapes.get(c["shape"], 0) + (1 if d is None else 0)
         if d is None:
             outcome["not_started"] += 1
         elif d["sig"]:
@@ -517,6 +549,7 @@ def run(ctx):
     cov["raw_error_cases"] = len(raw_items)
     cov["by_function"] = byfn
     cov["outcomes"] = outcome
+    cov["not_startable_shapes_observed_not_started"] = shapes
     cov["verbose"] = verb
     cov["exit_codes_observed"] = len(codes_seen)
     cov["exhaustive"] = "exit codes 0..255 (all observed: %s)" % (len(codes_seen) == 256)
